@@ -26,9 +26,9 @@ def in_domain(p, pkt):
     return True
 
 
-def scripts(rng, tier):
+def scripts(rng, tier, n=None):
     out = []
-    n = 40 if tier == "quick" else 600
+    n = n or (40 if tier == "quick" else 600)
     for k in range(n):
         ssrc = rng.randrange(2, 1 << 32)
         p = rand_policy(rng, ssrc=ssrc, valid=True)
@@ -76,4 +76,8 @@ def monitor(script, c):
 
 def families(tier, seed):
     rng = random.Random(seed * 1000 + 1)
-    return [Family("rtp-roundtrip", scripts(rng, tier), monitor=monitor)]
+    rng2 = random.Random(seed * 1000 + 101)
+    return [Family("rtp-roundtrip", scripts(rng, tier), monitor=monitor),
+            # AES-GCM (RFC 7714) policies: libsrtp built from the working tree against OpenSSL, the model compiled with that
+            # build's back-end flags (Aead.v: srtp_protect_aead / srtp_unprotect_aead, Crypto/GCM.v)
+            Family("gcm-roundtrip", with_aead(scripts, rng2, tier, n=(12 if tier == "quick" else 200)), monitor=monitor, config="openssl")]
